@@ -276,14 +276,18 @@ def pySet {α : Type} (l : List α) (i : Int) (v : α) : Except Err (List α) :=
   let j : Int := if i < 0 then i + l.length else i
   if j < 0 ∨ j ≥ l.length then .error .indexError else .ok (l.set j.toNat v)
 
-/-- `_enlarge_routine_info` -/
-def enlarge {ι : Type} (r : RState ι) : RState ι :=
-  if (r.infos.length : Int) - 1 < r.active then
+/-- `_enlarge_routine_info` (called after `_active_routine_id` was set). The first `if` is the check added by the
+repair "the SsbScript compiler crashed on negative and far too large routine ids": ids must satisfy
+`0 <= id <= len(routine_infos)`. The rest is kept in the shape of the code; with the check in front `needed` is 0 or 1
+and the negative-index branch of `pySet` below is no longer reachable from `exitDef`. -/
+def enlarge {ι : Type} (r : RState ι) : Except Err (RState ι) :=
+  if r.active < 0 ∨ r.active > (r.infos.length : Int) then .error .ssbCompilerError
+  else if (r.infos.length : Int) - 1 < r.active then
     let needed := (r.active - r.infos.length + 1).toNat
-    { r with infos := r.infos ++ List.replicate needed none,
-             ops := r.ops ++ List.replicate needed [],
-             coros := r.coros ++ List.replicate needed none }
-  else r
+    .ok { r with infos := r.infos ++ List.replicate needed none,
+                 ops := r.ops ++ List.replicate needed [],
+                 coros := r.coros ++ List.replicate needed none }
+  else .ok r
 
 def kindOfWord (w : String) : Option RoutineKind :=
   if w = "for_actor" ∨ w = "actor" then some .actor
@@ -307,17 +311,24 @@ def assign {ι : Type} (r : RState ι) (info : RoutineInfo) (items : List ι) : 
 /-- `exitSimple_def` / `exitCoro_def` / `exitFor_target_def`; `items` is `_collected_ops` -/
 def exitDef {ι : Type} (r : RState ι) (h : SHeader) (items : List ι) : Except Err (RState ι) :=
   match h with
-  | .simple id => assign (enlarge { r with active := id }) ⟨.generic, 0, none⟩ items
-  | .coro name =>
-    let r1 := enlarge { r with active := r.active + 1 }
-    match pySet r1.coros r1.active (some name) with
+  | .simple id =>
+    match enlarge { r with active := id } with
     | .error e => .error e
-    | .ok coros => assign { r1 with coros := coros } ⟨.coroutine, 0, none⟩ items
+    | .ok r1 => assign r1 ⟨.generic, 0, none⟩ items
+  | .coro name =>
+    match enlarge { r with active := r.active + 1 } with
+    | .error e => .error e
+    | .ok r1 =>
+      match pySet r1.coros r1.active (some name) with
+      | .error e => .error e
+      | .ok coros => assign { r1 with coros := coros } ⟨.coroutine, 0, none⟩ items
   | .forTarget id word target =>
-    let r1 := enlarge { r with active := id }
-    match kindOfWord word with
-    | none => .error .ssbCompilerError
-    | some k => assign r1 (infoOfTarget k target) items
+    match enlarge { r with active := id } with
+    | .error e => .error e
+    | .ok r1 =>
+      match kindOfWord word with
+      | none => .error .ssbCompilerError
+      | some k => assign r1 (infoOfTarget k target) items
 
 /-- the parse: per routine the statements of the body, then the `exit…_def` event -/
 def goG {σ ι : Type} (run : σ → List SStmt → σ × List ι) : σ → RState ι → List SRoutine → Except Err (σ × RState ι)
